@@ -73,14 +73,20 @@ def parse_val(tok):
         return (("miss",) if b and all(c == 0xff for c in b) else ("str", v)), af
     return ("?", tok), af
 
-def same_value(x, y, scale):
+def same_value(x, y, scale, af_bits=1, ref=0):
     """property-level equality: numeric within half the precision 10^-scale, others exactly; the C type
     of the value (int or double) may differ when a new reference value changes the element's encoding"""
     if x == y:
         return True
     (a, afa), (b, afb) = parse_val(x), parse_val(y)
-    if afa != afb:
-        return False
+    if af_bits > 0 and afa != afb:
+        return False     # the associated field is part of the data only when the encoding has one
+    if af_bits == 0 and a == b:
+        return True
+    if ref < 0 and x.split("@")[0] in ("i:-1", "l:-1") and b == ("num", Fraction(-1)):
+        # an integer-typed value holding the physical value -1 under a (redefined) negative reference:
+        # the library's -1 sentinel is ambiguous here, the encoder treats it as the number -1
+        return True
     if a[0] == "num" and b[0] == "num":
         return abs(a[1] - b[1]) < Fraction(1, 2) * Fraction(10) ** (-scale)
     return a == b
@@ -144,7 +150,7 @@ def oracle(scn, outs):
                 continue
             if n["type"] == 4 and n["nbits"] > 32 and (n["scale"] != 0 or n["ref"] != 0):
                 continue    # scaled numerics wider than 32 bits are outside the property (and unsupported)
-            if not same_value(x, y, n["scale"]):
+            if not same_value(x, y, n["scale"], n["af"], n["ref"]):
                 return "subset %d item %d (%06d, %d bits): value %s decoded as %s" % (k, i, n["desc"], n["nbits"], x, y)
     return None
 
